@@ -134,9 +134,10 @@ func cmdCheck(args []string) int {
 	if s := os.Getenv("VERIF_SEED"); s != "" {
 		fmt.Sscan(s, &cfg.seed)
 	}
-	// quick: 10 s per solver stage (3 s first stage, case split, then a race of three solvers). Longer limits
-	// were tried and made things worse: the queries that are never decided (covers, the axiom probe) then
-	// hold the cores for three times as long and starve the obligations that pass.
+	// quick: nominally 10 s per solver stage (3 s first stage, case split, then a race of three solvers); the
+	// nominal time is converted to the solver's own resource units (solver.go), so the verdict does not
+	// depend on the machine or its load. Longer limits were tried and made things worse: the queries that
+	// are never decided (covers, the axiom probe) then hold the cores for three times as long.
 	cfg.timeoutMs = 10000
 	if cfg.tier == "thorough" {
 		cfg.timeoutMs = 60000
@@ -230,7 +231,13 @@ func cmdCheck(args []string) int {
 	dir := filepath.Join(cfg.outDir, cfg.prop)
 	os.RemoveAll(dir)
 	genSecs := time.Since(t0).Seconds() - loadSecs
+	knownList := loadKnown("/verif/known_findings.json")
+	retryExempt = func(ob *Obligation) bool { return matchKnown(knownList, cfg.prop, ob) != nil }
 	dischargeAll(obls, dir, cfg.timeoutMs, cfg.par, cfg.tier == "thorough")
+	if os.Getenv("GOVC_GENONLY") != "" {
+		fmt.Printf("CHECK-ERROR: GOVC_GENONLY is set: %d query texts written to %s, nothing was decided\n", len(obls), dir)
+		return 2
+	}
 	var bounded []boundedResult
 	for _, sp := range w.cs.boundeds {
 		if (prop == "" || contains(sp.Props, prop)) && (cfg.only == "" || strings.Contains("bounded "+sp.Name, cfg.only)) {
